@@ -237,6 +237,12 @@ pub fn lattice_codes(n: u32, points: u32) -> Vec<u16> {
     let max = (1u32 << n) - 1;
     let mut v: Vec<u32> = (0..points).map(|i| ((i as u64 * max as u64) / (points as u64 - 1)) as u32).collect();
     v.extend(boundary_codes(n).into_iter().map(u32::from));
+    // the black / mid / white / maximum codes of every *lower* depth too: a constant that is
+    // right at one depth (128, 235, 1023, ...) is an ordinary-looking code at the others
+    for m in 8..n {
+        let k = 1u32 << (m - 8);
+        v.extend([16 * k, 128 * k, 235 * k, 240 * k, (1u32 << m) - 1, 1u32 << m]);
+    }
     v.sort_unstable();
     v.dedup();
     v.into_iter().map(|c| c as u16).collect()
